@@ -33,6 +33,8 @@ CONSTANTS
                     \*        into the destination (modification.rs, self.flush()? since 5040b10) -- refuted
 
 Dest == "D"
+\* pre-states of the destination explored by the model (build accepts any; compact needs an archive)
+PrevKinds == {"absent", "present", "empty", "garbage", "readonly", "dir"}
 
 VARIABLES
     vobj,      \* Seq of file objects [w: Nat, old: BOOLEAN, hurt: BOOLEAN]
@@ -40,7 +42,9 @@ VARIABLES
     vfd,       \* [Fds   -> 0..Len(vobj)]   0 = closed
     vres,      \* "run" | "ok" | "err" | "dead"
     vfull,     \* amount of data that makes a new object complete
-    vprev,     \* BOOLEAN: a previous archive existed at Dest when the operation started
+    vprev,     \* what Dest held when the operation started: "absent" or the kind of the previous object
+               \* ("present" = an archive, "empty" = 0-byte placeholder, "garbage", "readonly", "dir", edited archives ...);
+               \* Prev is whatever was there -- the property protects it regardless of what it is
     vhist,     \* observation: [wdest: BOOLEAN (a write/truncate hit the object linked at Dest),
                \*               commit: BOOLEAN (a rename onto Dest succeeded), unlinkfail: BOOLEAN]
     \* ---- process layer ----
@@ -57,7 +61,8 @@ ObjClass(o) == IF o.old THEN (IF o.hurt THEN "Other" ELSE "Old")
                ELSE IF o.w = vfull /\ ~o.hurt THEN "New" ELSE "Partial"
 PathClass(p) == IF vdir[p] = 0 THEN "Absent" ELSE ObjClass(vobj[vdir[p]])
 DestClass == PathClass(Dest)
-PrevClass == IF vprev THEN "Old" ELSE "Absent"
+PrevExists == vprev # "absent"
+PrevClass == IF PrevExists THEN "Old" ELSE "Absent"
 Temps     == {p \in Paths : p # Dest /\ vdir[p] # 0}
 
 \* ------------------------------------------------------------------------------------------------
@@ -148,8 +153,8 @@ FsReturn(r) ==
 
 FsInit(prev, full) ==
     /\ vprev = prev /\ vfull = full
-    /\ vobj = IF prev THEN <<[w |-> 0, old |-> TRUE, hurt |-> FALSE]>> ELSE <<>>
-    /\ vdir = [p \in Paths |-> IF p = Dest /\ prev THEN 1 ELSE 0]
+    /\ vobj = IF prev # "absent" THEN <<[w |-> 0, old |-> TRUE, hurt |-> FALSE]>> ELSE <<>>
+    /\ vdir = [p \in Paths |-> IF p = Dest /\ prev # "absent" THEN 1 ELSE 0]
     /\ vfd  = [f \in Fds |-> 0]
     /\ vres = "run"
     /\ vhist = [wdest |-> FALSE, commit |-> FALSE, unlinkfail |-> FALSE]
@@ -157,8 +162,8 @@ FsInit(prev, full) ==
 \* the same as an action (used by the trace specification at every Reset event)
 FsReset(prev, full) ==
     /\ vprev' = prev /\ vfull' = full
-    /\ vobj' = IF prev THEN <<[w |-> 0, old |-> TRUE, hurt |-> FALSE]>> ELSE <<>>
-    /\ vdir' = [p \in Paths |-> IF p = Dest /\ prev THEN 1 ELSE 0]
+    /\ vobj' = IF prev # "absent" THEN <<[w |-> 0, old |-> TRUE, hurt |-> FALSE]>> ELSE <<>>
+    /\ vdir' = [p \in Paths |-> IF p = Dest /\ prev # "absent" THEN 1 ELSE 0]
     /\ vfd'  = [f \in Fds |-> 0]
     /\ vres' = "run"
     /\ vhist' = [wdest |-> FALSE, commit |-> FALSE, unlinkfail |-> FALSE]
@@ -197,6 +202,9 @@ Faulted == vnfault' = vnfault + 1
 NoFault == vnfault' = vnfault
 
 IsBuild == vop \in {"build_stream", "build_buf"}
+\* mutant strategy "placeholder": a destination that exists as an empty regular file is written in place
+InPlace == Strategy = "placeholder" /\ IsBuild /\ vprev = "empty"
+NoTemp  == Strategy = "direct" \/ InPlace
 \* where build() writes: its own temp; inside compact the builder's destination is compact's temp T1
 BTmp == IF vop = "compact" THEN "T2" ELSE "T1"
 BTgt == IF vop = "compact" THEN "T1" ELSE Dest
@@ -207,7 +215,9 @@ Goto(l) == vpc' = l
 \* NamedTempFile::new_in(parent)?            (direct mutant: File::create(path)?)
 B_OpenTmp ==
     /\ vpc = "b_open"
-    /\ \/ /\ IF Strategy = "direct" THEN FsCreateOrTrunc(BTgt, BFd) ELSE FsCreate(BTmp, BFd)
+    /\ \/ /\ IF Strategy = "direct" THEN FsCreateOrTrunc(BTgt, BFd)
+             ELSE IF InPlace THEN FsOpen(BTgt, BFd, FALSE)          \* "placeholder": fill the empty file itself
+             ELSE FsCreate(BTmp, BFd)
           /\ Goto("b_write") /\ NoFault /\ UNCHANGED <<vop, vdone, vneed, vread>>
        \/ /\ CanFail /\ FsFail("open") /\ Faulted
           /\ Goto("b_ret_err") /\ UNCHANGED <<vop, vdone, vneed, vread>>
@@ -223,16 +233,22 @@ B_Write ==
           /\ UNCHANGED <<vop, vneed, vread>>
        \/ /\ CanFail /\ FsFail("write") /\ Faulted /\ Goto("b_cleanup")
           /\ UNCHANGED <<vop, vdone, vneed, vread>>
+\* the build fails for a reason that is not an I/O fault of the output (a source file is missing, fs::read fails):
+\* write_archive returns Err between two writes; no system call of the output fails
+B_Abort ==
+    /\ vpc = "b_write" /\ vdone < vneed /\ vnfault = 0
+    /\ Goto("b_cleanup") /\ UNCHANGED <<fsvars, vop, vdone, vneed, vnfault, vread>>
 \* file.flush(): a no-op on std::fs::File -- no fsync is issued (durability against power loss is
 \* not part of the property; process death only)
 B_Flush ==
     /\ vpc = "b_write" /\ vdone = vneed
-    /\ Goto(IF Strategy = "direct" THEN "b_close" ELSE IF Strategy = "copy" THEN "b_copy_open" ELSE "b_rename")
+    /\ Goto(IF NoTemp THEN "b_close" ELSE IF Strategy = "copy" THEN "b_copy_open" ELSE "b_rename")
     /\ UNCHANGED <<fsvars, vop, vdone, vneed, vnfault, vread>>
 \* temp_file.persist(path): rename(tmp, path)
 B_Rename ==
     /\ vpc = "b_rename"
-    /\ \/ /\ FsRename(BTmp, BTgt) /\ NoFault /\ Goto("b_close")
+    /\ \/ /\ ~(BTgt = Dest /\ vprev = "dir") /\ FsRename(BTmp, BTgt) /\ NoFault /\ Goto("b_close")
+       \/ /\ BTgt = Dest /\ vprev = "dir" /\ FsFail("rename") /\ NoFault /\ Goto("b_cleanup")   \* EISDIR
        \/ /\ CanFail /\ FsFail("rename") /\ Faulted /\ Goto("b_cleanup")
     /\ UNCHANGED <<vop, vdone, vneed, vread>>
 \* copy mutant: fs::copy(tmp, path) + remove_file(tmp)
@@ -254,9 +270,9 @@ B_CopyRm ==
 \* error path: NamedTempFile's Drop unlinks the temp, then the descriptor is closed
 B_Cleanup ==
     /\ vpc = "b_cleanup"
-    /\ \/ /\ Strategy # "direct" /\ vdir[BTmp] # 0 /\ FsUnlink(BTmp) /\ NoFault
-       \/ /\ Strategy # "direct" /\ vdir[BTmp] # 0 /\ CanFail /\ FsFail("unlink") /\ Faulted
-       \/ /\ (Strategy = "direct" \/ vdir[BTmp] = 0) /\ NoFault /\ UNCHANGED fsvars
+    /\ \/ /\ ~NoTemp /\ vdir[BTmp] # 0 /\ FsUnlink(BTmp) /\ NoFault
+       \/ /\ ~NoTemp /\ vdir[BTmp] # 0 /\ CanFail /\ FsFail("unlink") /\ Faulted
+       \/ /\ (NoTemp \/ vdir[BTmp] = 0) /\ NoFault /\ UNCHANGED fsvars
     /\ Goto("b_close_err") /\ UNCHANGED <<vop, vdone, vneed, vread>>
 B_Close ==
     /\ vpc \in {"b_close", "b_close_err"}
@@ -347,12 +363,12 @@ Die == Crash /\ Goto("dead") /\ UNCHANGED <<vop, vdone, vneed, vnfault, vread>>
 
 Init ==
     /\ vop \in Ops
-    /\ \E prev \in BOOLEAN : (vop = "compact" => prev) /\ FsInit(prev, NW)
+    /\ \E prev \in PrevKinds : (vop = "compact" => prev \in {"present", "readonly"}) /\ FsInit(prev, NW)
     /\ vpc = IF vop = "compact" THEN "c_begin" ELSE "b_open"
     /\ vdone = 0 /\ vneed = NW /\ vnfault = 0 /\ vread = 0
 
 Next ==
-    \/ B_OpenTmp \/ B_Seek \/ B_Write \/ B_Flush \/ B_Rename \/ B_CopyOpen \/ B_Copy \/ B_CopyRm
+    \/ B_OpenTmp \/ B_Seek \/ B_Write \/ B_Abort \/ B_Flush \/ B_Rename \/ B_CopyOpen \/ B_Copy \/ B_CopyRm
     \/ B_Cleanup \/ B_Close \/ B_Return
     \/ C_Begin \/ C_Flush \/ C_OpenTmp \/ C_Read \/ C_StartBuild \/ C_Reopen \/ C_DropOld \/ C_Rename \/ C_Verify \/ C_OpenRw
     \/ C_Cleanup \/ C_Return
